@@ -101,6 +101,8 @@ def make_builtins(eng):
         v = eng.deref(args[0], st)
         if isinstance(v, VOpt): v = eng.unopt(v, st, None, "int() argument")
         if isinstance(v, (VInt, VBool)): return VInt(_e.to_int(v))
+        if isinstance(v, VReal) and getattr(v, "int_value", None) is not None:
+            return VInt(v.int_value)
         if isinstance(v, VReal):
             if getattr(v, "ratio", None) is not None:
                 a, b = v.ratio      # int(a / b) on ints: truncation towards zero (float rounding not modelled)
@@ -390,6 +392,10 @@ def make_spec_builtins(eng):
     @reg("b2i")
     def _b2i(args, kwargs, st, eng):
         return VInt(z3.If(eng.truth(args[0], st), 1, 0))
+
+    @reg("CeilInt")
+    def _ceilint(args, kwargs, st, eng):
+        return VInt(-z3.ToInt(-_e.to_real(args[0])))
 
     @reg("cdiv")
     def _cdiv(args, kwargs, st, eng):
